@@ -264,6 +264,12 @@ class Lib:
         _carry(st, s2)
         return z3.ForAll(vs, bz)
 
+    def sf_uf_int(self, ex, node, st):
+        """uf_int("name", a, ...): an uninterpreted integer-valued function of integer arguments."""
+        name = ex.eval(node.args[0], st)
+        vals = [to_z3(as_int(ex.eval(a, st))) for a in node.args[1:]]
+        return self.ctx.uf(name, *([I] * len(vals) + [I]))(*vals)
+
     def sf_close(self, ex, node, st):
         """Equality of reals (SMT reading); equality up to rounding in the native reading."""
         return values_equal(as_real(ex.eval(node.args[0], st)), as_real(ex.eval(node.args[1], st)))
@@ -445,6 +451,11 @@ class Lib:
                 continue
             st.pending.append((list(st.pc), w, r["exc"]))
             st.assume(znot(w))
+        for exc in getattr(c, "may_raise", []):
+            # the callee may raise: an unconstrained choice
+            w = z3.Bool(uid("raises_" + exc))
+            st.pending.append((list(st.pc), w, exc))
+            st.assume(z3.Not(w))
         facts = []
         result = None
         vec = [p for p in c.options.get("vectorized", []) if isinstance(bind.get(p), Seq)]
